@@ -9,9 +9,11 @@ ID = "C13"
 RULE = ("Operations attach (add_child), detach (remove_child), declare (add_namespace incl. re-declaration with the same "
         "or a new URI), remove (remove_namespace) over small forests, and in the state machine also the bulk helpers in "
         "their documented call forms (fix_nsmap(root), fix_nsmap(n, n.parent.nsmap), set_nsmap(fresh dict, children=True)). "
-        "(1) Exhaustive breadth-first exploration with states canonicalised as forest shape + per-node bindings + the "
+        "Prefixes include names a library may be tempted to treat specially (xml, eml, xsi).  (1) Exhaustive breadth-first exploration with states canonicalised as forest shape + per-node bindings + the "
         "partition of nodes by shared dict object (what the copy-on-write logic branches on); every reachable state x "
-        "every enabled operation runs on a freshly rebuilt real forest.  (2) Hypothesis state machine on 6-10 nodes.  "
+        "every enabled operation runs on a freshly rebuilt real forest.  (2) Hypothesis state machine on 6-10 nodes.  (3) Attach "
+        "scenarios: a subtree whose grandchildren hold their own maps is prepared first, the parent gets 2-4 prefixes, "
+        "the subtree is attached last.  "
         "Oracle: a model with one independent dict per node (declare / remove act on exactly the subtree, attach makes the "
         "parent's prefixes visible with the child's own bindings winning); after every operation nsmap of every node of "
         "every tree equals the model, so nothing outside the operated subtree changes.  Non-trivial: a prefix re-declared "
